@@ -758,6 +758,14 @@ pub fn c13(ctx: &mut Ctx, tier: &str, r: &mut Rng, js: &[Value], reqs: &[String]
 }
 
 // ------------------------------------------------------------------------------------ C20
+/// replayable input of a C20 pair: the base configuration, the shift and which of the two moves failed
+fn pair_input(a: &DayCase, shift_h: f64, what: &str) -> Value {
+    let mut v = a.to_json();
+    v["shift_h"] = json!(shift_h);
+    v["pair"] = json!(what);
+    v
+}
+
 fn c20_pair(ctx: &mut Ctx, a: &DayCase, b: &DayCase, shift_h: f64, what: &str) {
     ctx.eval();
     let (da, db) = match (a.run(), b.run()) {
@@ -779,20 +787,20 @@ fn c20_pair(ctx: &mut Ctx, a: &DayCase, b: &DayCase, shift_h: f64, what: &str) {
                 if diff.abs() > 11. {
                     // 10 s plus one second of truncation on each side
                     ctx.fail(
-                        b.to_json(),
+                        pair_input(a, shift_h, what),
                         format!("{}: {:?} {} -> {} (expected shift {:+.2} h, off by {:+.0} s)", what, p, hms(secs(&x)), hms(secs(&y)), shift_h, diff),
                         "within 10 s".into(),
                     );
                     return;
                 }
                 if x.extreme != y.extreme {
-                    ctx.fail(b.to_json(), format!("{:?} extreme flag changed", p), "unchanged".into());
+                    ctx.fail(pair_input(a, shift_h, what), format!("{:?} extreme flag changed", p), "unchanged".into());
                     return;
                 }
             }
             (Err(()), Err(())) => {}
             _ => {
-                ctx.fail(b.to_json(), format!("{}: validity of {:?} changed", what, p), "validity unchanged".into());
+                ctx.fail(pair_input(a, shift_h, what), format!("{}: validity of {:?} changed", what, p), "validity unchanged".into());
                 return;
             }
         }
@@ -817,13 +825,15 @@ pub fn c20(ctx: &mut Ctx, tier: &str, r: &mut Rng, js: &[Value], reqs: &[String]
             c20_pair(ctx, c, &b, 0., "15 deg east + 1 h");
         }
     };
-    for c in cases_from(js, reqs) {
+    let shifts: Vec<f64> = js.iter().map(|v| v.get("shift_h").and_then(|x| x.as_f64()).unwrap_or(1.)).collect();
+    for (ci, c) in cases_from(js, reqs).into_iter().enumerate() {
+        let d_replay = shifts.get(ci).copied().unwrap_or(1.);
         // inside the quantifier: a named method's configuration, conventional times (policy None or the
         // library default; a substitute latitude or a neighbouring good day is another place or date)
         let conv = matches!(c.p.extreme_latitude_method, ExtremeLatitudeMethod::None | ExtremeLatitudeMethod::NearestGoodDayFajrIshaInvalid);
         if lat(&c).abs() <= 45. && (gmt(&c) - lon(&c) / 15.).abs() <= 3. && conv && named_like(&c, true) {
             let c2 = c.with(|p| p.round_seconds = RoundSeconds::None);
-            pairs(ctx, &c2, 1.);
+            pairs(ctx, &c2, d_replay);
         } else {
             ctx.branch("handed-over-input-outside-quantifier");
         }
